@@ -162,6 +162,20 @@ pub fn apply_pattern(pattern: &str, offset: usize, data: &mut Vec<u8>) -> bool {
                 }
             }
         }
+        "suble" => {
+            // -1 on the little-endian field of `arg` bytes that contains `offset`
+            let w = arg.max(1);
+            let start = (o / w) * w;
+            let end = (start + w).min(data.len());
+            let mut borrow = true;
+            for b in &mut data[start..end] {
+                if borrow {
+                    let (v, c) = b.overflowing_sub(1);
+                    *b = v;
+                    borrow = c;
+                }
+            }
+        }
         _ => panic!("harness: unknown tamper pattern {pattern}"),
     }
     true
